@@ -38,9 +38,9 @@ def edge_list(A, directed):
     return idx.tolist()
 
 
-def _grid(n=6):
+def _grid(n=6, t=10):
     from pyunicorn.core import GeoGrid
-    return GeoGrid(np.arange(10.0), np.linspace(0.0, 75.0, n), np.linspace(2.5, 140.0, n),
+    return GeoGrid(np.arange(float(t)), np.linspace(0.0, 75.0, n), np.linspace(2.5, 140.0, n),
                    silence_level=3)
 
 
@@ -339,6 +339,87 @@ class ClimateFamily:
                 ("adjacency", lambda: obj.adjacency), ("total_node_weight", lambda: obj.total_node_weight)]
 
 
+def _data12(n=6, t=24):
+    """Two years of monthly data (time cycle 12) - winter_only selects months 0, 1, 11."""
+    k = np.arange(t)[:, None]
+    j = np.arange(n)[None, :]
+    return np.sin(2 * np.pi * k / 12.0 + 0.7 * j) + 0.3 * np.cos(2 * np.pi * k / 5.0 + j * j) \
+        + 0.05 * ((k * (j + 3)) % 7)
+
+
+class TsonisFamily(ClimateFamily):
+    """Data-driven climate network: set_winter_only recomputes the similarity from the shared data."""
+    name = "tsonis"
+    extra = {"WO": "winter_only"}
+
+    def cls(self):
+        from pyunicorn.climate import TsonisClimateNetwork
+        return TsonisClimateNetwork
+
+    def build(self, a):
+        from pyunicorn.climate import ClimateData
+        cd = ClimateData(_data12(), _grid(t=24), 12, silence_level=3)
+        kw = {a["MODE"]: CLIM_PARAM[a["MODE"]][a["P"]]}
+        for key, arg in self.extra.items():
+            kw[arg] = bool(a[key])
+        return self.cls()(cd, non_local=bool(a["NL"]), silence_level=3, **kw)
+
+    def mutate(self, obj, m, v):
+        if m in ("set_winter_only", "set_directed"):
+            getattr(obj, m)(bool(v))
+        else:
+            ClimateFamily.mutate(self, obj, m, v)
+
+    def names(self, obj):
+        return [n for n in ClimateFamily.names(self, obj) if "eigenvector" not in n]
+
+    def calls(self, obj, a):
+        c = ClimateFamily.calls(self, obj, a)
+        c.append(("similarity_measure", obj.similarity_measure))
+        for nm in ("correlation", "coherence", "phase_shift"):
+            if hasattr(obj, nm):
+                c.append((nm, getattr(obj, nm)))
+        return c
+
+
+class HilbertFamily(TsonisFamily):
+    name = "hilbert"
+    extra = {"DIR": "directed"}
+
+    def cls(self):
+        from pyunicorn.climate import HilbertClimateNetwork
+        return HilbertClimateNetwork
+
+
+class IsrnFamily:
+    """Inter-system recurrence network: both setters rebuild the whole network."""
+    name = "isrn"
+    PARAM = {"threshold": {1: (0.6, 0.7, 0.8), 2: (1.0, 0.9, 1.2)},
+             "recurrence_rate": {1: (0.2, 0.3, 0.25), 2: (0.4, 0.35, 0.5)}}
+
+    def build(self, a):
+        from pyunicorn.timeseries import InterSystemRecurrenceNetwork
+        return InterSystemRecurrenceNetwork(SERIES.copy(), SERIES_Y[:9].copy(), metric="supremum", silence_level=3,
+                                            **{a["MODE"]: self.PARAM[a["MODE"]][a["P"]]})
+
+    def mutate(self, obj, m, v):
+        mode = m[len("set_fixed_"):]
+        getattr(obj, m)(self.PARAM[mode][v])
+
+    def names(self, obj):
+        return [n for n in netcommon.discover(obj) if "eigenvector" not in n]
+
+    def calls(self, obj, a):
+        return [("N", lambda: obj.N), ("n_links", lambda: obj.n_links), ("adjacency", lambda: obj.adjacency),
+                ("inter_system_recurrence_matrix", obj.inter_system_recurrence_matrix),
+                ("internal_recurrence_rates", obj.internal_recurrence_rates),
+                ("cross_recurrence_rate", obj.cross_recurrence_rate),
+                ("cross_global_clustering_xy", obj.cross_global_clustering_xy),
+                ("cross_global_clustering_yx", obj.cross_global_clustering_yx),
+                ("cross_transitivity_xy", obj.cross_transitivity_xy),
+                ("cross_transitivity_yx", obj.cross_transitivity_yx)]
+
+
 class ClimateDataFamily:
     name = "climatedata"
 
@@ -424,7 +505,7 @@ class SurrogatesFamily:
         ]
 
 
-FAMILIES = {f.name: f for f in (SurrogatesFamily(), NetworkFamily(), DirNetworkFamily(), InteractingFamily(), GeoNetworkFamily(),
+FAMILIES = {f.name: f for f in (TsonisFamily(), HilbertFamily(), IsrnFamily(), SurrogatesFamily(), NetworkFamily(), DirNetworkFamily(), InteractingFamily(), GeoNetworkFamily(),
                                 ResNetworkFamily(), RpFamily(), RnFamily(), CrpFamily(), JrpFamily(),
                                 JrnFamily(), ClimateFamily(), ClimateDataFamily(), VisibilityFamily())}
 
@@ -458,11 +539,18 @@ def apply_abs(a, m, v):
         a["WIN"] = 0
     elif m == "normalize_original_data":
         a["NORM"] = 1
+    elif m == "set_winter_only":
+        a["WO"] = v
+    elif m == "set_directed":
+        a["DIR"] = v
     return a
 
 
 INIT = {
     "surrogates": {"EMB": 0, "NORM": 0},
+    "tsonis": {"MODE": "threshold", "P": 1, "NL": 0, "WO": 0},
+    "hilbert": {"MODE": "threshold", "P": 1, "NL": 0, "DIR": 1},
+    "isrn": {"MODE": "threshold", "P": 1},
     "network": {"A": 1, "W": 0, "LA": 0}, "dirnetwork": {"A": 1, "W": 0, "LA": 0},
     "interacting": {"A": 1, "W": 0, "LA": 0}, "visibility": {"A": 1, "W": 0, "LA": 0},
     "geonetwork": {"A": 1, "W": 0, "LA": 0, "NWT": 1}, "resnetwork": {"R": 1},
